@@ -506,3 +506,100 @@ Proof.
   rewrite (select_docs_spec texts _ 0 Hinc). unfold b64_file.
   rewrite (filter_idx_ext (a :: idx') (norm_indices (a :: idx')) _ Hin). reflexivity.
 Qed.
+
+(* ---------- command-line index arguments ---------- *)
+Definition digits_value (ds : list Z) (acc : Z) : Z := fold_left (fun a c => a * 10 + (c - 48)) ds acc.
+
+Lemma digits_value_mono ds : forallb is_digit ds = true -> forall acc, 0 <= acc -> acc <= digits_value ds acc.
+Proof.
+  induction ds as [|c r IH]; intros Hd acc Ha; simpl; [lia|].
+  simpl in Hd. apply andb_true_iff in Hd. destruct Hd as [Hc Hr].
+  unfold is_digit in Hc. apply andb_true_iff in Hc. destruct Hc as [H1 H2].
+  apply Z.leb_le in H1. apply Z.leb_le in H2.
+  specialize (IH Hr (acc * 10 + (c - 48))). unfold digits_value in *. lia.
+Qed.
+
+Lemma read_digits_all ds : forallb is_digit ds = true -> forall acc seen,
+  0 <= acc -> digits_value ds acc < two64 -> (seen = true \/ ds <> []) ->
+  read_digits ds acc seen false = Some (Some (digits_value ds acc), []).
+Proof.
+  induction ds as [|c r IH]; intros Hd acc seen Ha Hv Hs.
+  - simpl. destruct Hs as [->|Hs]; [reflexivity | congruence].
+  - simpl in Hd. apply andb_true_iff in Hd. destruct Hd as [Hc Hr].
+    cbn [read_digits]. rewrite Hc.
+    assert (0 <= acc * 10 + (c - 48)) as Hp.
+    { unfold is_digit in Hc. apply andb_true_iff in Hc. destruct Hc as [H1 H2].
+      apply Z.leb_le in H1. apply Z.leb_le in H2. lia. }
+    pose proof (digits_value_mono r Hr (acc * 10 + (c - 48)) Hp) as Hm.
+    change (digits_value (c :: r) acc) with (digits_value r (acc * 10 + (c - 48))) in *.
+    assert (acc * 10 + (c - 48) <? two64 = true) as Hlt by (apply Z.ltb_lt; lia).
+    rewrite Hlt. cbn [negb orb]. apply IH; auto.
+Qed.
+
+Lemma digit_not_ws_sign c : is_digit c = true -> is_ws c = false /\ c <> 43 /\ c <> 45.
+Proof.
+  unfold is_digit, is_ws. intros H. apply andb_true_iff in H. destruct H as [H1 H2].
+  apply Z.leb_le in H1. apply Z.leb_le in H2.
+  destruct (c =? 32) eqn:E; [apply Z.eqb_eq in E; lia|].
+  destruct ((9 <=? c) && (c <=? 13)) eqn:E2; [apply andb_true_iff in E2; destruct E2 as [_ E3]; apply Z.leb_le in E3; lia|].
+  simpl. repeat split; lia.
+Qed.
+
+Lemma read_size_t_digits ds rest : ds <> [] -> forallb is_digit ds = true -> digits_value ds 0 < two64 ->
+  (match rest with [] => True | c :: _ => is_digit c = false end) ->
+  read_size_t (ds ++ rest) = Some (Some (digits_value ds 0), rest).
+Proof.
+  intros Hne Hd Hv Hrest. destruct ds as [|c r]; [congruence|].
+  simpl in Hd. apply andb_true_iff in Hd. destruct Hd as [Hc Hr].
+  destruct (digit_not_ws_sign c Hc) as (Hws & H43 & H45).
+  unfold read_size_t. simpl app. cbn [skip_ws]. rewrite Hws.
+  assert (forall ds acc seen, forallb is_digit ds = true -> 0 <= acc -> digits_value ds acc < two64 ->
+          (seen = true \/ ds <> []) ->
+          read_digits (ds ++ rest) acc seen false = Some (Some (digits_value ds acc), rest)) as G.
+  { clear -Hrest. induction ds as [|d q IH]; intros acc seen Hd Ha Hv Hs.
+    - simpl. destruct Hs as [->|Hs]; [|congruence].
+      destruct rest as [|x xs]; [reflexivity|]. cbn [read_digits]. rewrite Hrest. reflexivity.
+    - simpl in Hd. apply andb_true_iff in Hd. destruct Hd as [Hc Hr].
+      simpl app. cbn [read_digits]. rewrite Hc.
+      assert (0 <= acc * 10 + (d - 48)) as Hp.
+      { unfold is_digit in Hc. apply andb_true_iff in Hc. destruct Hc as [H1 H2].
+        apply Z.leb_le in H1. apply Z.leb_le in H2. lia. }
+      pose proof (digits_value_mono q Hr (acc * 10 + (d - 48)) Hp) as Hm.
+      change (digits_value (d :: q) acc) with (digits_value q (acc * 10 + (d - 48))) in *.
+      assert (acc * 10 + (d - 48) <? two64 = true) as Hlt by (apply Z.ltb_lt; lia).
+      rewrite Hlt. cbn [negb orb]. apply IH; auto. }
+  destruct c as [|p|p]; try (exfalso; unfold is_digit in Hc; simpl in Hc; discriminate).
+  assert (Zpos p <> 43 /\ Zpos p <> 45) as [A B] by tauto.
+  destruct (Pos.eq_dec p 43) as [->|N1]; [congruence|].
+  destruct (Pos.eq_dec p 45) as [->|N2]; [congruence|].
+  transitivity (read_digits ((Zpos p :: r) ++ rest) 0 false false).
+  - simpl app. repeat (destruct p as [p|p|]; try reflexivity); congruence.
+  - apply G; [simpl; rewrite Hc, Hr; reflexivity | lia | exact Hv | right; congruence].
+Qed.
+
+(* "N": a non-empty string of decimal digits denoting 1 <= n < 2^16 selects exactly document n *)
+Theorem parse_single_index_proof ds :
+  ds <> [] -> forallb is_digit ds = true -> 1 <= digits_value ds 0 < 65536 ->
+  parse_range ds = ArgIndices [Z.to_nat (digits_value ds 0)].
+Proof.
+  intros Hne Hd Hv. unfold parse_range.
+  rewrite <- (app_nil_r ds) at 1. rewrite (read_size_t_digits ds [] Hne Hd) by (unfold two64; lia || exact I).
+  destruct (digits_value ds 0 =? 0) eqn:E0; [apply Z.eqb_eq in E0; lia|]. rewrite andb_false_r.
+  destruct (digits_value ds 0 <? 65536) eqn:E; [reflexivity | apply Z.ltb_ge in E; lia].
+Qed.
+
+(* "M-N" with 1 <= M <= N < 2^16 expands to M, M+1, ..., N *)
+Theorem parse_index_range_proof ds1 ds2 :
+  ds1 <> [] -> ds2 <> [] -> forallb is_digit ds1 = true -> forallb is_digit ds2 = true ->
+  1 <= digits_value ds1 0 <= digits_value ds2 0 -> digits_value ds2 0 < 65536 ->
+  parse_range (ds1 ++ 45 :: ds2) =
+    ArgIndices (seq (Z.to_nat (digits_value ds1 0)) (Z.to_nat (digits_value ds2 0 - digits_value ds1 0 + 1))).
+Proof.
+  intros N1 N2 D1 D2 Hv Hb. unfold parse_range.
+  rewrite (read_size_t_digits ds1 (45 :: ds2) N1 D1) by (unfold two64; lia || reflexivity).
+  destruct (digits_value ds1 0 =? 0) eqn:E0; [apply Z.eqb_eq in E0; lia|]. rewrite andb_false_r.
+  rewrite <- (app_nil_r ds2) at 1. rewrite (read_size_t_digits ds2 [] N2 D2) by (unfold two64; lia || exact I).
+  destruct (digits_value ds2 0 <? digits_value ds1 0) eqn:E1; [apply Z.ltb_lt in E1; lia|].
+  destruct (digits_value ds2 0 - digits_value ds1 0 <? 65536) eqn:E2; [|apply Z.ltb_ge in E2; lia].
+  destruct (digits_value ds2 0 <? 1048576) eqn:E3; [|apply Z.ltb_ge in E3; lia]. reflexivity.
+Qed.
